@@ -86,8 +86,8 @@ Definition class_to_mir (w : wrap) : string :=
   | _ => py_class w
   end.
 
-Definition truthy_size (s : option Z) : option Z :=
-  match s with Some n => if Z.eqb n 0 then None else Some n | None => None end.
+(* {"size": self.size} if self.size is not None else {} *)
+Definition truthy_size (s : option Z) : option Z := s.
 
 (* Collection.to_mir / NadaType.to_mir / ArrayType.to_mir, quirks included *)
 Fixpoint to_mir (w : wrap) : res mty :=
@@ -96,8 +96,21 @@ Fixpoint to_mir (w : wrap) : res mty :=
   | WArray elt size _ =>
       do i <- inner_mir elt; Ok (TyArray i (truthy_size size))
   | WTuple l r _ => do a <- side_mir l; do b <- side_mir r; Ok (TyTuple a b)
-  | WNTuple vals _ => Ok (TyNTuple (map (fun v => TyName (class_to_mir v)) vals))
-  | WObject vals _ => Ok (TyObject (map (fun kv => (fst kv, TyName (class_to_mir (snd kv)))) vals))
+  | WNTuple vals _ =>
+      (* each component through its own to_mir() *)
+      do ts <- (fix go (l : list wrap) : res (list mty) :=
+                  match l with
+                  | [] => Ok []
+                  | v :: r => do t <- to_mir v; do ts <- go r; Ok (t :: ts)
+                  end) vals;
+      Ok (TyNTuple ts)
+  | WObject vals _ =>
+      do ts <- (fix go (l : list (string * wrap)) : res (list (string * mty)) :=
+                  match l with
+                  | [] => Ok []
+                  | (k, v) :: r => do t <- to_mir v; do ts <- go r; Ok ((k, t) :: ts)
+                  end) vals;
+      Ok (TyObject ts)
   end
 with inner_mir (d : td) : res mty :=        (* retrieve_inner_type *)
   match d with
